@@ -44,6 +44,25 @@ FILES = {
     "canopen/profiles/p402.py": ["C19"],
 }
 
+# second pass (--recheck): the remaining properties, most plausible first
+EXT = {
+    "canopen/sdo/client.py": ["C03", "C20", "C09", "C02"],
+    "canopen/sdo/server.py": ["C03", "C17", "C11", "C01"],
+    "canopen/sdo/base.py": ["C06", "C02", "C13", "C20", "C09", "C19", "C07"],
+    "canopen/node/local.py": ["C03", "C15", "C16", "C17", "C11"],
+    "canopen/node/remote.py": ["C15", "C17", "C19", "C11", "C16", "C01"],
+    "canopen/variable.py": ["C05", "C15", "C04", "C19", "C01"],
+    "canopen/objectdictionary/__init__.py": ["C01", "C02", "C03", "C05", "C06", "C09"],
+    "canopen/objectdictionary/datatypes.py": ["C20", "C05", "C01", "C02"],
+    "canopen/objectdictionary/eds.py": ["C02", "C09", "C03"],
+    "canopen/pdo/base.py": ["C19", "C20", "C10"],
+    "canopen/pdo/__init__.py": ["C05", "C19"],
+    "canopen/network.py": ["C03", "C11", "C16", "C18", "C09"],
+    "canopen/nmt.py": ["C10", "C03"],
+    "canopen/emcy.py": ["C10"],
+}
+ALL = [f"C{k:02d}" for k in range(1, 21)]
+
 CMP = {ast.Lt: ["<="], ast.LtE: ["<"], ast.Gt: [">="], ast.GtE: [">"], ast.Eq: ["!="], ast.NotEq: ["=="],
        ast.Is: ["is not"], ast.IsNot: ["is"], ast.In: ["not in"], ast.NotIn: ["in"]}
 CMP_TXT = {ast.Lt: "<", ast.LtE: "<=", ast.Gt: ">", ast.GtE: ">=", ast.Eq: "==", ast.NotEq: "!=",
@@ -169,7 +188,7 @@ def run_mutant(m, dst, wid):
     verdict, by = "SURVIVED", None
     detail = ""
     try:
-        for prop in FILES[m["file"]]:
+        for prop in m.get("props") or FILES[m["file"]]:
             env = dict(os.environ, VERIF_REPO=dst, VERIF_SCRATCH=f"am{wid}", PYTHONHASHSEED="0",
                        PYTHONDONTWRITEBYTECODE="1")
             try:
@@ -190,7 +209,7 @@ def run_mutant(m, dst, wid):
                 break
     finally:
         open(path, "w").write(orig)
-    return dict(m, verdict=verdict, by=by, detail=detail)
+    return dict(m, verdict=verdict, by=by, detail=detail, ran=(m.get("ran") or []) + list(m.get("props") or FILES[m["file"]]))
 
 
 def main():
@@ -200,6 +219,7 @@ def main():
     ap.add_argument("--max", type=int, default=None)
     ap.add_argument("--out", default="/verif/.work/mutants.jsonl")
     ap.add_argument("--kinds", default=None)
+    ap.add_argument("--recheck", default=None, help="survivors of an earlier run: try every other property")
     args = ap.parse_args()
     files = args.files.split(",") if args.files else list(FILES)
     muts = []
@@ -208,6 +228,17 @@ def main():
         if args.kinds:
             ms = [m for m in ms if m["kind"] in args.kinds.split(",")]
         muts += ms
+    if args.recheck:
+        muts = []
+        for l in open(args.recheck):
+            m = json.loads(l)
+            if m["verdict"] != "SURVIVED":
+                continue
+            done = m.get("ran") or FILES[m["file"]]
+            first = [p for p in EXT.get(m["file"], []) if p not in done]
+            m["props"] = first + [p for p in ALL if p not in done and p not in first]
+            m["ran"] = list(done)
+            muts.append(m)
     if args.max:
         muts = muts[:args.max]
     print(f"{len(muts)} mutants over {len(files)} files", flush=True)
